@@ -487,12 +487,15 @@ func (e *env) drivePeers(d *driverSet, allowBad, allowDisconnect bool, scale int
 	}
 }
 
-func c10Body() func(h []dsim.Rec) {
+func c10Body() func(h []dsim.Rec) { return eventStreamRun(false) }
+
+// eventStreamRun is the C10 deployment; keyed forces an incoming key (node-level part of C06).
+func eventStreamRun(keyed bool) func(h []dsim.Rec) {
 	cfg := genNodeCfg()
 	if dsim.Choose(5) == 4 {
 		cfg.dialectKind = 1
 	}
-	if dsim.Choose(4) == 3 {
+	if dsim.Choose(4) == 3 || keyed {
 		k := genKey()
 		cfg.inKey = &k
 	}
